@@ -1035,6 +1035,38 @@ func bbCase(t *rapid.T, c *ev.Case) {
 				c.Class("skipped_no_admissible_pred")
 				continue
 			}
+			// fully anchored exact alternatives ^(a|b)$ / ^[ab]$: the query layer rewrites them to (k = 'a' OR k = 'b') resp.
+			// (k != 'a' AND k != 'b') before the index is asked (SelectStatement.RewriteRegexConditions) - a path the
+			// library campaigns cannot reach; the shared generator produces the shape rarely
+			p.walk(func(n *pnode) {
+				if !n.leaf() || (n.Op != "=~" && n.Op != "!~") || rapid.IntRange(0, 5).Draw(t, "exactalt") != 0 {
+					return
+				}
+				pool := u.vals[string(n.K)]
+				if len(pool) == 0 {
+					pool = realisticVals
+				}
+				var pat string
+				if rapid.IntRange(0, 3).Draw(t, "altclass") == 0 {
+					pat = "^[" + rapid.SampledFrom([]string{"ab", "wd", "01", "a-c", "we1"}).Draw(t, "cls") + "]$"
+				} else {
+					k := rapid.IntRange(2, 3).Draw(t, "nalts")
+					alts := make([]string, k)
+					for i := range alts {
+						alts[i] = regexp.QuoteMeta(rapid.SampledFrom(pool).Draw(t, "alt"))
+					}
+					pat = "^(" + strings.Join(alts, "|") + ")$"
+				}
+				if _, err := regexp.Compile(pat); err != nil {
+					return
+				}
+				if cls := knownRegexDefect(pat); cls != "" {
+					c.Excluded(cls)
+					return
+				}
+				n.V = bstr(pat)
+				c.Class("regex_exact_alternatives_fully_anchored")
+			})
 			if forceParens(p) {
 				c.Excluded("and_or_mixed_without_parentheses(C12-or-before-and)")
 			}
